@@ -135,6 +135,18 @@ PICKS = [
  ("gossipval.ValidateSyncContribAndProof", "contrib.SubcommitteeIndex >= common.SYNC_COMMITTEE_SUBNET_COUNT", "subcommittee_index < SYNC_COMMITTEE_SUBNET_COUNT: reject >="),
  # ---- pools
  ("pool.AttestationPool.Prune", "v.Data.Target.Epoch < min", "attestations with target before the previous epoch can no longer be included"),
+ ("pool.AttestationPool.Prune", "k.Epoch < min", "per-validator records are dropped with the same bound as the attestations they describe (previous epoch is kept)"),
+ # ---- round-2 additions
+ ("proto.ProtoArray.isNodeViableForHead", "node.JustifiedEpoch == pr.justifiedEpoch", "node_is_viable_for_head: correct_justified = store.justified.epoch == GENESIS or leaf justified epoch == store justified epoch"),
+ ("proto.ProtoArray.isNodeViableForHead", "pr.justifiedEpoch == common.GENESIS_EPOCH", "correct_justified: the genesis exemption reads the STORE's justified epoch"),
+ ("proto.ProtoArray.isNodeViableForHead", "node.FinalizedEpoch == pr.finalizedEpoch", "correct_finalized: leaf finalized epoch == store finalized epoch"),
+ ("proto.ProtoArray.isNodeViableForHead", "pr.finalizedEpoch == common.GENESIS_EPOCH", "correct_finalized: the genesis exemption reads the STORE's finalized epoch"),
+ ("phase0.ValidateVoluntaryExit", "scheduledExitEpoch != common.FAR_FUTURE_EPOCH", "validator.exit_epoch == FAR_FUTURE_EPOCH (exit not yet initiated)"),
+ ("deneb.ValidateVoluntaryExit", "scheduledExitEpoch != common.FAR_FUTURE_EPOCH", "validator.exit_epoch == FAR_FUTURE_EPOCH (exit not yet initiated)"),
+ ("common.EpochsContext.RotateEpochs", "epc.CurrentEpoch.Epoch % epc.Spec.EPOCHS_PER_SYNC_COMMITTEE_PERIOD == 0", "the cached sync committees rotate when the NEW current epoch starts a sync-committee period"),
+ ("phase0.GenesisFromEth1", "vEff == spec.MAX_EFFECTIVE_BALANCE", "genesis activation: validator.effective_balance == MAX_EFFECTIVE_BALANCE"),
+ ("proto.ProtoArray.ApplyScoreChanges", "justifiedEpoch != pr.justifiedEpoch", "cached justified epoch refreshed when it differs"),
+ ("proto.ProtoArray.ApplyScoreChanges", "finalizedEpoch != pr.finalizedEpoch", "cached finalized epoch refreshed when it differs"),
 ]
 
 TYPED = [
@@ -169,7 +181,7 @@ def leaf_regex(atom):
     # anchored, case-insensitive: calls by name, selector paths by their last two components, plain names exactly
     if "(" in atom and not atom.startswith("("):
         name = atom[:atom.index("(")].split(".")[-1]
-        if name == "len":
+        if name == "len" or name == "mod":
             return "(?i)^" + re.escape(atom) + "$"
         return "(?i)(^|\\.)" + re.escape(name) + "\\("
     parts = atom.split(".")
